@@ -945,7 +945,12 @@ class ConstantReferenceApplier(TreeListener):
 
         if tree.child:
             try:
-                self.extra_symbols[-1][str(tree)] = self.classes[-1].find_constant_symbol(tree)
+                # Copy the symbol: it belongs to the class in which the constant is declared
+                # (possibly a class of the library tree), and flattening renames and
+                # modifies the symbols of the instance tree in place.
+                self.extra_symbols[-1][str(tree)] = copy.deepcopy(
+                    self.classes[-1].find_constant_symbol(tree)
+                )
             except (
                 KeyError,
                 ast.ClassNotFoundError,
